@@ -325,10 +325,8 @@ def gen_message(rng, marshal, message):
     else:
         m = message.SignalMessage('/org/x/Obj', 'Changed', 'org.x.Iface', signature=sig, body=body)
     raw = m.rawMessage
-    if rng.random() < 0.3:      # the same message in big-endian
-        m.endian = ord('B')
-        m._marshal(False)
-        raw = m.rawMessage
+    if rng.random() < 0.4:      # the same message in big-endian (message._marshal always encodes the body little-endian)
+        raw = big_endian_message(marshal, message, m)
     return raw
 
 
@@ -601,6 +599,76 @@ def length_lies(data, le, rng, limit):
     return out
 
 
+TOP16 = list(range(2 ** 32 - 16, 2 ** 32))
+
+
+def length_fields(marshal, raw, fn):
+    """Positions (absolute in `raw`) and widths of EVERY length field the real decoder reads while `fn()` decodes the
+    valid input `raw`: 4 bytes for string / object path / array, 1 byte for signature / variant.  (The body of a
+    message is decoded from a suffix slice; `len(raw) - len(data)` is its base.)"""
+    found = []
+    saved = dict(marshal.unmarshallers)
+    width = {marshal.unmarshal_string: 4, marshal.unmarshal_array: 4, marshal.unmarshal_signature: 1,
+             marshal.unmarshal_variant: 1}
+
+    def wrap(f, w):
+        def rec(ct, data, offset, lendian, oobFDs):
+            found.append((len(raw) - len(data) + offset, w))
+            return f(ct, data, offset, lendian, oobFDs)
+        return rec
+    try:
+        for k, f in saved.items():
+            w = width.get(f)
+            if w is None and k in 'so':
+                w = 4
+            if w is not None:
+                marshal.unmarshallers[k] = wrap(f, w)
+        try:
+            fn()
+        except Exception:
+            pass
+    finally:
+        for k, f in saved.items():
+            marshal.unmarshallers[k] = f
+    return sorted(set(found))
+
+
+def field_lies(raw, le, fields, extra=()):
+    """every length field replaced, one at a time, by the boundary set
+    {0, 1, L-1, L+1, n-1, n, n+1, 2^31-1, 2^31, 2^31+1, 2^32-16 .. 2^32-1} (L its value, n = len(raw));
+    one-byte fields by {0, 1, L-1, L+1, 127, 128, 129, 240 .. 255}."""
+    out = []
+    n = len(raw)
+    for pos, w in list(fields) + list(extra):
+        if pos < 0 or pos + w > n:
+            continue
+        if w == 4:
+            cur = struct.unpack_from('<I' if le else '>I', raw, pos)[0]
+            vals = {0, 1, cur - 1, cur + 1, n - 1, n, n + 1, 2 ** 31 - 1, 2 ** 31, 2 ** 31 + 1} | set(TOP16)
+            for v in sorted(x & 0xffffffff for x in vals):
+                if v != cur:
+                    out.append(raw[:pos] + struct.pack('<I' if le else '>I', v) + raw[pos + 4:])
+        else:
+            cur = raw[pos]
+            vals = {0, 1, cur - 1, cur + 1, 127, 128, 129} | set(range(240, 256))
+            for v in sorted(x & 0xff for x in vals):
+                if v != cur:
+                    out.append(raw[:pos] + bytes([v]) + raw[pos + 1:])
+    return out
+
+
+def big_endian_message(marshal, message, m):
+    """the message `m` (already marshalled little-endian) encoded entirely in big-endian byte order."""
+    body = b''
+    if m.signature:
+        body = b''.join(marshal.marshal(m.signature, m.body, 0, False)[1])
+    flags = (0 if m.expectReply else 1) | (0 if m.autoStart else 2)
+    hdr = b''.join(marshal.marshal(message._headerFormat,
+                                   [ord('B'), m._messageType, flags, m._protocolVersion, len(body), m.serial, m.headers],
+                                   lendian=False)[1])
+    return hdr + b'\0' * (-len(hdr) % 8) + body
+
+
 # ------------------------------------------------------------------ observation + judgement
 class Runner:
     def __init__(self, ctx, marshal, message):
@@ -787,6 +855,10 @@ def run(ctx):
             R.add('unmarshal-valid-truncated-mutated', dict(base, data=d))
         for d in length_lies(data, le, rng, None if thorough else 4):
             R.add('lying-lengths', dict(base, data=d))
+        fields = length_fields(marshal, data, lambda: marshal.unmarshal(sig, data, off, le, []))
+        ctx.stat('length-fields', len(fields))
+        for d in field_lies(data, le, fields):
+            R.add('lying-lengths', dict(base, data=d))
         for _ in range(8 if thorough else 3):       # the valid data under a faulted signature
             R.add('hostile-signatures', dict(base, sig=fault_sig(rng, sig), data=data))
         if len(R.pending) > 3000:
@@ -804,6 +876,10 @@ def run(ctx):
         for d in byte_mutations(raw, rng, lim):
             R.add('message-truncated-mutated', {'op': 'p', 'data': d})
         for d in length_lies(raw, raw[:1] == b'l', rng, None if thorough else 4):
+            R.add('lying-lengths', {'op': 'p', 'data': d})
+        fields = length_fields(marshal, raw, lambda: message.parseMessage(raw, []))
+        ctx.stat('length-fields', len(fields))
+        for d in field_lies(raw, raw[:1] == b'l', fields, extra=[(4, 4)]):      # + the body length of the fixed header
             R.add('lying-lengths', {'op': 'p', 'data': d})
         for d in resign(raw, rng, 6 if thorough else 2):
             R.add('hostile-message-signature', {'op': 'p', 'data': d})
